@@ -32,6 +32,7 @@
 #include "stat.h"
 #include "misc.h"
 #include "timer_event.h"
+#include <tbox/base/verif_hook.h>
 
 namespace tbox {
 namespace event {
@@ -68,6 +69,7 @@ bool CommonLoop::isRunningLockless() const
 
 void CommonLoop::runThisBeforeLoop()
 {
+    CPP_TBOX_VERIF_POINT("loop.start.enter", 0, 0);
     int event_fd = CreateEventFd();
 
     FdEvent *sp_read_event = newFdEvent("CommonLoop::sp_run_read_event_");
@@ -80,32 +82,42 @@ void CommonLoop::runThisBeforeLoop()
     using std::placeholders::_1;
     sp_read_event->setCallback(std::bind(&CommonLoop::handleRunInLoopFunc, this));
     sp_read_event->enable();
+    CPP_TBOX_VERIF_POINT("loop.start.enabled", 0, 0);
 
     std::lock_guard<std::recursive_mutex> g(lock_);
     loop_thread_id_ = std::this_thread::get_id();
     run_event_fd_ = event_fd;
     sp_run_read_event_ = sp_read_event;
+#ifdef CPP_TBOX_VERIF
+    bool verif_had_req = has_commit_run_req_;
+#endif
 
     if (!run_in_loop_func_queue_.empty())
         commitRunRequest();
+    CPP_TBOX_VERIF_POINT("loop.start.locked", run_in_loop_func_queue_.size(), (has_commit_run_req_ && !verif_had_req));
 
     resetStat();
 }
 
 void CommonLoop::runThisAfterLoop()
 {
+    CPP_TBOX_VERIF_POINT("loop.after.enter", 0, 0);
     std::lock_guard<std::recursive_mutex> g(lock_);
+    CPP_TBOX_VERIF_POINT("loop.after.locked", 0, 0);
     cleanupDeferredTasks();
+    CPP_TBOX_VERIF_POINT("loop.after.drained", 0, 0);
 
     loop_thread_id_ = std::thread::id();    //! 清空 loop_thread_id_
     if (sp_run_read_event_ != nullptr) {
         CHECK_DELETE_RESET_OBJ(sp_run_read_event_);
         CHECK_CLOSE_RESET_FD(run_event_fd_);
     }
+    CPP_TBOX_VERIF_POINT("loop.after.closed", has_commit_run_req_, 0);
 }
 
 void CommonLoop::beginLoopProcess()
 {
+    CPP_TBOX_VERIF_POINT("loop.pass.begin", 0, 0);
     loop_stat_start_ = steady_clock::now();
 }
 
@@ -164,6 +176,7 @@ void CommonLoop::resetStat()
 
 void CommonLoop::cleanup()
 {
+    CPP_TBOX_VERIF_POINT("loop.destroy.cleanup", 0, 0);
     cleanupDeferredTasks();
 }
 
